@@ -125,7 +125,9 @@ def gen_read_op(rng, shape, sd):
     kind = rng.choice(["unsqueeze", "squeeze", "squeeze_all", "permute", "transpose", "view", "reshape", "flatten", "unflatten",
                        "unbind", "split", "chunk", "expand", "repeat", "repeat_interleave",
                        "sum", "mean", "all", "any", "prod", "cmp", "contiguous", "densify", "to_tensordict", "clone",
-                       "gather", "masked_select", "where", "arith", "getkey", "select_keys", "apply", "len_iter", "flatten_keys"])
+                       "gather", "masked_select", "where", "arith", "getkey", "select_keys", "apply", "len_iter", "flatten_keys",
+                       "masked_fill", "to_dtype", "to_dict", "empty", "flat_unflat", "item_shape", "bool_ops", "items",
+                       "torch_fn", "apply_other", "inplace_keys", "named_apply"])
     if kind == "unsqueeze":
         d = rand_dim(rng, r, 1)
         return kind, [d], lambda x: x.unsqueeze(d)
@@ -256,6 +258,73 @@ def gen_read_op(rng, shape, sd):
         return kind, [], lambda x: [len(x)] + [t for t in x] if len(shape) else [0]
     if kind == "flatten_keys":
         return kind, [], lambda x: x.flatten_keys(".")
+    if kind == "masked_fill":
+        m = torch.tensor([rng.random() < 0.5 for _ in range(math.prod(shape))]).reshape(shape)
+        return kind, [m.tolist()], lambda x: x.masked_fill(m, -2.0)
+    if kind == "to_dtype":
+        how = rng.choice(["to", "double", "int"])
+        if how == "to":
+            return kind, [how], lambda x: x.to(torch.float64)
+        return kind, [how], lambda x: getattr(x, how)()
+    if kind == "to_dict":
+        return kind, [], lambda x: TensorDict.from_dict(x.to_dict(), batch_size=list(x.batch_size))
+    if kind == "empty":
+        rec = rng.random() < 0.5
+        return kind, [rec], lambda x: x.empty(recurse=rec)
+    if kind == "flat_unflat":
+        return kind, [], lambda x: x.flatten_keys("/").unflatten_keys("/")
+    if kind == "item_shape":
+        k = rng.choice(["a", "b", ("n", "c")])
+        return kind, [str(k)], lambda x: list(x.get_item_shape(k))
+    if kind == "bool_ops":
+        op = rng.choice(["__or__", "__xor__"])
+        return kind, [op], lambda x: getattr(x > 1000, op)(x < 500)
+    if kind == "items":
+        return kind, [], lambda x: [v for _, v in sorted(x.items(), key=lambda kv: kv[0])]
+    if kind == "torch_fn":
+        # the functional spellings go through __torch_function__
+        fn = rng.choice(["zeros_like", "ones_like", "full_like", "clone", "unbind", "squeeze", "unsqueeze", "permute",
+                         "split", "gather", "where", "stack_one", "cat_one"])
+        d = rand_dim(rng, r)
+        if fn in ("zeros_like", "ones_like", "clone"):
+            return kind, [fn], lambda x: getattr(torch, fn)(x)
+        if fn == "full_like":
+            return kind, [fn], lambda x: torch.full_like(x, 3.0)
+        if fn == "unbind":
+            return kind, [fn, d], lambda x: torch.unbind(x, d)
+        if fn == "squeeze":
+            return kind, [fn, d], lambda x: torch.squeeze(x, d)
+        if fn == "unsqueeze":
+            d1 = rand_dim(rng, r, 1)
+            return kind, [fn, d1], lambda x: torch.unsqueeze(x, d1)
+        if fn == "permute":
+            p = list(range(r))
+            rng.shuffle(p)
+            return kind, [fn, p], lambda x: torch.permute(x, p)
+        if fn == "split":
+            k = rng.randint(1, max(1, shape[d] if r else 1))
+            return kind, [fn, k, d], lambda x: torch.split(x, k, d)
+        if fn == "gather":
+            dd = d % r
+            ishape = list(shape)
+            ishape[dd] = rng.randint(1, 2)
+            idx = torch.tensor([rng.randrange(shape[dd]) for _ in range(math.prod(ishape))], dtype=torch.long).reshape(ishape)
+            return kind, [fn, d, idx.tolist()], lambda x: torch.gather(x, d, idx)
+        if fn == "where":
+            m = torch.tensor([rng.random() < 0.6 for _ in range(math.prod(shape))]).reshape(shape)
+            return kind, [fn, m.tolist()], lambda x: torch.where(m, x, x * 0 - 1)
+        if fn == "stack_one":
+            d1 = rand_dim(rng, r, 1)
+            return kind, [fn, d1], lambda x: torch.stack([x], d1)
+        return kind, [fn, d], lambda x: torch.cat([x], d)
+    if kind == "apply_other":
+        return kind, [], lambda x: x.apply(lambda a, b: a * 2 + b, x + 1)
+    if kind == "named_apply":
+        return kind, [], lambda x: x.named_apply(lambda name, t: t + len(name), nested_keys=True)
+    if kind == "inplace_keys":
+        which = rng.choice(["select", "exclude"])
+        k = rng.choice(["a", "b", ("n", "c")])
+        return kind, [which, str(k)], lambda x: getattr(x.clone(), which)(k, inplace=True)
     raise AssertionError(kind)
 
 
@@ -618,6 +687,187 @@ def member_write_stream(run, n_cases):
             run.oracle_ok("member_write")
 
 
+# ----------------------------------------------------------------------------- views and copies
+VIEW_OPS = ["unsqueeze", "squeeze", "transpose", "permute", "unbind_piece", "split_piece", "chunk_piece", "basic_index"]
+COPY_OPS = ["repeat", "repeat_interleave", "clone", "gather", "to_tensordict", "cat_two", "stack_two"]
+
+
+def gen_alias_op(rng, shape, sd):
+    """an op whose dense result is known to be a view of (VIEW_OPS) / independent of (COPY_OPS) its input"""
+    r = len(shape)
+    kind = rng.choice(VIEW_OPS + COPY_OPS)
+    if kind == "unsqueeze":
+        d = rand_dim(rng, r, 1)
+        return kind, [d], lambda x: x.unsqueeze(d)
+    if kind == "squeeze":
+        d = rand_dim(rng, r)
+        return kind, [d], lambda x: x.squeeze(d)
+    if kind == "transpose":
+        a, b = rand_dim(rng, r), rand_dim(rng, r)
+        return kind, [a, b], lambda x: x.transpose(a, b)
+    if kind == "permute":
+        p = list(range(r))
+        rng.shuffle(p)
+        return kind, [p], lambda x: x.permute(*p)
+    if kind in ("unbind_piece", "split_piece", "chunk_piece"):
+        d = rand_dim(rng, r)
+        s = shape[d]
+        if kind == "unbind_piece":
+            j = rng.randrange(s)
+            return kind, [d, j], lambda x: x.unbind(d)[j]
+        if kind == "split_piece":
+            k = rng.randint(1, s)
+            j = rng.randrange(-(-s // k))
+            return kind, [k, d, j], lambda x: x.split(k, d)[j]
+        k = rng.randint(1, 3)
+        return kind, [k, d], lambda x: x.chunk(k, d)[0]
+    if kind == "basic_index":
+        ix = []
+        for s in shape[:rng.randint(0, r)]:
+            q = rng.random()
+            if q < 0.35:
+                ix.append(rng.randrange(-s, s))
+            elif q < 0.8:
+                a = rng.randrange(s)
+                ix.append(slice(a, rng.randint(a + 1, s), rng.choice([None, 1, 2])))
+            else:
+                ix.append(slice(None))
+            if rng.random() < 0.15:
+                ix.append(None)
+        ix = tuple(ix)
+        return kind, [str(ix)], lambda x: x[ix]
+    if kind == "repeat":
+        reps = [rng.randint(1, 2) for _ in range(r)]
+        return kind, [reps], lambda x: x.repeat(*reps)
+    if kind == "repeat_interleave":
+        d = rand_dim(rng, r)
+        k = rng.randint(1, 3)
+        return kind, [k, d], lambda x: x.repeat_interleave(k, dim=d)
+    if kind in ("clone", "to_tensordict"):
+        return kind, [], lambda x: getattr(x, kind)()
+    if kind == "gather":
+        d = rand_dim(rng, r)
+        dd = d % r
+        ishape = list(shape)
+        ishape[dd] = rng.randint(1, 2)
+        idx = torch.tensor([rng.randrange(shape[dd]) for _ in range(math.prod(ishape))], dtype=torch.long).reshape(ishape)
+        return kind, [d, idx.tolist()], lambda x: x.gather(d, idx)
+    if kind in ("cat_two", "stack_two"):
+        # a second operand of the same kind with its own storage (lazy: its own member objects)
+        d = rand_dim(rng, r) if kind == "cat_two" else rand_dim(rng, r, 1)
+
+        def f(x, d=d, kind=kind):
+            if isinstance(x, LazyStackedTensorDict):
+                y = LazyStackedTensorDict(*[m.clone() for m in x.tensordicts], stack_dim=x.stack_dim)
+            else:
+                y = x.clone()
+            return torch.cat([x, y], d) if kind == "cat_two" else torch.stack([x, y], d)
+        return kind, [d], f
+    raise AssertionError(kind)
+
+
+def gen_result_write(rng, bs):
+    """an in-place write on a result of batch size `bs`, through the tensordict API only"""
+    how = rng.choice(["zero_", "fill_", "set_item", "apply_", "update_"])
+    if how == "set_item" and not (bs and bs[0] > 0):
+        how = "zero_"
+    if how == "zero_":
+        return how, [], lambda r: r.zero_()
+    if how == "fill_":
+        return how, ["a"], lambda r: r.fill_("a", 7.0)
+    if how == "apply_":
+        return how, [], lambda r: r.apply_(lambda t: t + 0.25)
+    if how == "update_":
+        return how, [], lambda r: r.update_(value_for(rng, tuple(bs), keys=("a", "n")))
+    j = rng.randrange(bs[0])
+    return how, [j], lambda r: r.__setitem__(j, value_for(rng, tuple(bs[1:])))
+
+
+def alias_stream(run, n_cases):
+    """a result that is a view of the dense stack must write through to the members the same way;
+    in a result that is a copy on the dense side no position may alias another one (a write to the
+    result must leave it equal to the dense result written the same way).  Whether a lazy "copy"
+    shares members with its SOURCE is not flagged (torch.cat along the stack dim re-uses the member
+    objects by design, as lazy_stack does): it is counted as `alias_shares_source`."""
+    global NESTED_EXTRA
+    rng = run.rng
+    for _ in range(n_cases):
+        NESTED_EXTRA = rng.random() < 0.25
+        rank = rng.choice([0, 1, 1, 2, 2])
+        bs = tuple(rng.choice([1, 2, 2, 3]) for _ in range(rank))
+        n = rng.randint(1, 4)
+        sd = rng.randint(0, rank)
+        shape = list(bs)
+        shape.insert(sd, n)
+        two = rng.random() < 0.25
+        if two:
+            # a stack of stacks: `n` inner stacks of `n_in` members stacked at `sd_in`
+            n_in = rng.randint(1, 3)
+            sd_in = rng.randint(0, rank)
+            inner_ms = [mk_members(bs, n_in, base=20000 * j) for j in range(n)]
+            L = LazyStackedTensorDict(*[LazyStackedTensorDict(*ms_, stack_dim=sd_in) for ms_ in inner_ms], stack_dim=sd)
+            D = torch.stack([dense_of(ms_, sd_in) for ms_ in inner_ms], sd)
+            shape = list(D.batch_size)
+
+            def source_diff():
+                return G.same_td(torch.stack([dense_of(ms_, sd_in) for ms_ in inner_ms], sd), D)
+        else:
+            ms = mk_members(bs, n)
+            L = LazyStackedTensorDict(*ms, stack_dim=sd)
+            D = dense_of(ms, sd)
+
+            def source_diff():
+                return state_diff(ms, D, sd)
+        name, args, f = gen_alias_op(rng, shape, sd)
+        case = {"bs": list(bs), "n": n, "sd": sd, "op": name, "args": args}
+        if two:
+            case.update(n_in=n_in, sd_in=sd_in)
+        run.case(("alias", name, str(args), bs, n, sd, two))
+        try:
+            with time_limit(180):
+                rl, rd = f(L), f(D)
+        except TimeoutError:
+            raise
+        except Exception:  # noqa: BLE001
+            run.oracle_ok("alias_raises:" + name)
+            continue
+        if tuple(rl.batch_size) != tuple(rd.batch_size) or is_empty_lazy(rl):
+            run.oracle_ok("alias_skipped:" + name)      # value disagreements are the read streams' business
+            continue
+        st = rng.getstate()
+        how, wargs, w = gen_result_write(rng, list(rd.batch_size))
+        case.update(write=how, wargs=wargs)
+        try:
+            with time_limit(180):
+                w(rd)
+                rng.setstate(st)
+                how2, _, w2 = gen_result_write(rng, list(rd.batch_size))
+                assert how2 == how
+                w2(rl)
+        except TimeoutError:
+            raise
+        except Exception:  # noqa: BLE001
+            run.oracle_ok("alias_raises:" + name)
+            continue
+        run.count("alias.kind", f"{name}/{how}")
+        d = diff_canon(canon(rl), canon(rd))
+        if d is None:
+            d = source_diff()
+            if d and name in COPY_OPS:
+                run.count("alias.shares_source", name)
+                d = None
+            elif d:
+                d = "source after the write: " + d
+        else:
+            d = "result after the write: " + d
+        if d:
+            what = "view" if name in VIEW_OPS else "copy"
+            run.oracle_fail("alias:" + name, case,
+                            f"lazy.{name}{tuple(args)} ({what} on the dense side) then {how}{tuple(wargs)}: {d}", f"alias:{name}")
+        else:
+            run.oracle_ok("alias:" + name)
+
+
 # ----------------------------------------------------------------------------- cat / stack (with and without out=)
 def cat_stack_stream(run, n_cases):
     global NESTED_EXTRA
@@ -735,7 +985,7 @@ def stack_of_stacks_stream(run, n_cases):
         L = LazyStackedTensorDict(*inners, stack_dim=sd_out)
         D = torch.stack([dense_of(ms, sd_in) for ms in inner_ms], sd_out)
         shape = list(D.batch_size)
-        what = rng.choice(["read", "read", "write", "op", "key"])
+        what = rng.choice(["read", "read", "write", "op", "key", "mut"])
         case = {"bs": list(bs), "n_in": n_in, "n_out": n_out, "sd_in": sd_in, "sd_out": sd_out, "what": what}
         run.case(("sos", str(case), rng.random()))
         run.count("stack_of_stacks.what", what)
@@ -758,6 +1008,48 @@ def stack_of_stacks_stream(run, n_cases):
                 run.oracle_fail("stack_of_stacks", case, f"{name}{tuple(args)} differs: {diff_canon(rl, rd)}", f"sos:op:{name}")
             else:
                 run.oracle_ok("stack_of_stacks:" + sl)
+        elif what == "mut":
+            bs_outer = list(shape)
+            del bs_outer[sd_out]
+            for _ in range(20):
+                name, args, f = gen_mut_op(rng, shape, sd_out, tuple(bs_outer), n_out)
+                if not isinstance(f, tuple):      # insert / append of a plain member: the one-level stream's business
+                    break
+            else:
+                continue
+            case["op"], case["args"] = name, args
+            res = []
+            for x in (L, D):
+                try:
+                    with time_limit(180):
+                        f(x)
+                    res.append("ok")
+                except TimeoutError:
+                    raise
+                except Exception:  # noqa: BLE001
+                    res.append("raise")
+            run.count("stack_of_stacks.mut", f"{name}:{'/'.join(res)}")
+            if res == ["ok", "ok"]:
+                d = None
+                try:
+                    # the leaf members (the caller's objects) hold the data ...
+                    S = torch.stack([dense_of(ms, sd_in) for ms in inner_ms], sd_out)
+                    d = G.same_td(S, D)
+                    if d:
+                        d = "stack(stack(leaf members)) vs dense: " + d
+                except Exception as e:  # noqa: BLE001
+                    d = f"leaf members can no longer be stacked: {type(e).__name__}"
+                if d is None:
+                    try:
+                        d = G.same_td(L, D)    # ... and the stack of stacks reads it
+                    except Exception:  # noqa: BLE001
+                        d = None
+                if d:
+                    run.oracle_fail("stack_of_stacks", case, f"after {name}{tuple(args)[:1]} through the stack of stacks: {d}", f"sos:mut:{name}")
+                else:
+                    run.oracle_ok("stack_of_stacks:mut")
+            else:
+                run.oracle_ok("stack_of_stacks:mut-" + "/".join(res))
         elif what == "key":
             (sl, rl), (sdn, rd) = run_both(lambda x: [x["a"], x["n", "c"], x.get("b")], L, D)
             if sl == "ok" and sdn == "ok" and diff_canon(rl, rd):
